@@ -21,14 +21,102 @@ META = {
 }
 
 
+STRENGTHS = {"Quadrupole": ["k1"], "Dipole": ["angle", "k1"], "RBend": ["angle", "k1"], "Solenoid": ["k"],
+             "HorizontalCorrector": ["angle"], "VerticalCorrector": ["angle"], "Cavity": ["V"]}
+
+
+def weak(cls, rng):
+    """forced record entries: strengths spread over 1e-9 .. 1 of their usual size (small-argument shortcuts, series
+    switch-overs and cancellation live there)"""
+    import elements as E
+    base = E.gen_params(rng, cls)
+    return {k: float(base[k]) * 10.0 ** float(-rng.uniform(1.0, 9.0)) for k in STRENGTHS.get(cls, []) if k in base}
+
+
+def mp_solenoid_R(L, k, mx, my, En):
+    from mpmath import mp, mpf
+    L, k, mx, my = [mpf(float(v)) for v in (L, k, mx, my)]
+    g = mpf(float(En)) / mpf(F.MC2)
+    c, s = mp.cos(L * k), mp.sin(L * k)
+    sk = L if k == 0 else s / k
+    R = F.mp_eye()
+    R[0][0] = c * c; R[0][1] = c * sk; R[0][2] = s * c; R[0][3] = s * sk  # noqa: E702
+    R[1][0] = -k * s * c; R[1][1] = c * c; R[1][2] = -k * s * s; R[1][3] = s * c  # noqa: E702
+    R[2][0] = -s * c; R[2][1] = -s * sk; R[2][2] = c * c; R[2][3] = c * sk  # noqa: E702
+    R[3][0] = k * s * s; R[3][1] = -s * c; R[3][2] = -k * s * c; R[3][3] = c * c  # noqa: E702
+    R[4][5] = L / (1 - g * g)
+    if mx != 0 or my != 0:
+        Rin, Rout = F.mp_eye(), F.mp_eye()
+        Rin[0][6] = -mx; Rin[2][6] = -my; Rout[0][6] = mx; Rout[2][6] = my  # noqa: E702
+        R = F.mp_mul(Rout, F.mp_mul(R, Rin))
+    return R
+
+
+def map_accuracy_case(rep, r: dict) -> None:
+    """float64 (float32) transfer map vs the closed form in 50-digit arithmetic, to round-off of the working dtype
+    (row-wise scale)"""
+    import numpy as np
+    import torch
+    import cheetah
+    from mpmath import mpf
+    dtn, cls = r["dtype"], r["cls"]
+    dtype = F.DT[dtn]
+    eps = float(torch.finfo(dtype).eps)
+    t = lambda x: torch.tensor(x, dtype=dtype)  # noqa: E731
+    q = {k: float(F.r32(r[k], dtn)) for k in ("L", "s", "mx", "my", "E")}
+    if cls == "Solenoid":
+        el = cheetah.Solenoid(length=t(q["L"]), k=t(q["s"]), misalignment=t([q["mx"], q["my"]]), dtype=dtype)
+        R = mp_solenoid_R(q["L"], q["s"], q["mx"], q["my"], q["E"])
+    else:
+        el = cheetah.Quadrupole(length=t(q["L"]), k1=t(q["s"]), misalignment=t([q["mx"], q["my"]]), dtype=dtype)
+        R = F.mp_quad_R(q["L"], q["s"], 0.0, q["mx"], q["my"], q["E"])
+    got = el.transfer_map(t(q["E"])).to(torch.float64).numpy()
+    for i in range(6):
+        scale = max(float(abs(R[i][j])) for j in range(6))
+        for j in range(7):
+            sc = scale if j < 6 else max(scale * max(abs(q["mx"]), abs(q["my"])), 1e-300)
+            e = abs(float(mpf(float(got[i, j])) - R[i][j]))
+            if not e <= 64 * eps * sc + (1e-11 if cls == "Quadrupole" else 0.0):
+                mag = "k*L<1e-3" if abs(q["s"]) * q["L"] ** (1 if cls == "Solenoid" else 2) < 1e-3 else "k*L>=1e-3"
+                rep.fail("falsifier", f"C12|accuracy|{cls}.transfer_map|{dtn}|{mag}",
+                         f"{cls}(length={q['L']!r}, strength={q['s']!r}).transfer_map in {dtn}: R[{i},{j}] = {float(got[i, j])!r}, closed form "
+                         f"{float(R[i][j])!r} ({e / (eps * sc):.3g} eps x row scale)", r)
+                return
+
+
+def map_accuracy_probe(ctx, n: int) -> None:
+    import elements as E
+    import numpy as np
+    rep, rng = ctx.report, ctx.rng
+    for _ in range(n):
+        cls = ["Solenoid", "Quadrupole"][int(rng.integers(2))]
+        s = float(rng.choice([-1.0, 1.0])) * 10.0 ** float(rng.uniform(-9.0, 1.0))
+        if rng.random() < 0.1:
+            s = 0.0
+        mis = rng.random() < 0.3
+        r = {"kind": "map_accuracy", "cls": cls, "dtype": ["float64", "float64", "float32"][int(rng.integers(3))],
+             "L": float(np.round(rng.uniform(0.05, 2.0), 4)), "s": s, "mx": float(rng.normal(0, 1e-3)) if mis else 0.0,
+             "my": float(rng.normal(0, 1e-3)) if mis else 0.0, "E": float(E.energy(rng))}
+        rep.fals_cases += 1
+        rep.count(f"map_accuracy:{cls}:{r['dtype']}")
+        rep.case(("map_accuracy", cls, r["dtype"], int(np.floor(np.log10(abs(s) + 1e-300)))), None)
+        map_accuracy_case(rep, r)
+
+
 def run(ctx) -> None:
     for p, En, real, model, entry in run_maps_correspondence(ctx, "C12", ctx.n(10, 200)):
         mismatch_failure(ctx.report, "C12", p, En, real, model, entry)
+    for p, En, real, model, entry in run_maps_correspondence(ctx, "C12", ctx.n(6, 100), force=weak, classes=list(STRENGTHS)):
+        mismatch_failure(ctx.report, "C12", p, En, real, model, entry, extra=" [weak-strength sweep]")
+    if F is not None:
+        map_accuracy_probe(ctx, ctx.n(60, 1500))
     if F is not None:
         F.run(ctx)
 
 
 def corpus_case(ctx, r: dict) -> None:
+    if r.get("kind") == "map_accuracy":
+        return map_accuracy_case(ctx.report, r)
     if F is not None and hasattr(F, "corpus_case"):
         F.corpus_case(ctx, r)
 
